@@ -60,7 +60,18 @@ TInit == /\ tid \in 1..Len(Traces) /\ TLCSet(tid, 0) /\ l = 1
 \* cached yet
 SeenOK == ToSet(Cur.seen) = {<<h, FALSE>> : h \in loadedNow' \cup (armed \ armed')}
 
+\* PathEquivalence, DefaultIffKeyError and LatestWins quantify over M \X Paths (930 pairs here) and read maps, layers
+\* and abs only.  Calls that are not tree operations leave these three unchanged (demanded of every such step), so
+\* the value of these invariants cannot differ from the state before: they are evaluated after tree operations only
+\* (T_... below; half the cost of a run).
+TreeOps == {"SetItem", "PushLayer", "Clear"}
+TreeFresh == l = 1 \/ Evs[l - 1].op \in TreeOps
+T_PathEquivalence == TreeFresh => PathEquivalence
+T_DefaultIffKeyError == TreeFresh => DefaultIffKeyError
+T_LatestWins == TreeFresh => LatestWins
+
 Consume(A) == /\ l <= Len(Evs) /\ A /\ SeenOK /\ l' = l + 1 /\ UNCHANGED tid
+              /\ (Cur.op \notin TreeOps => UNCHANGED <<maps, layers, abs>>)
 
 \* clear(): nothing left in the map; its former direct children are detached - except a child that was moved
 \* elsewhere meanwhile: it keeps recording its new place (and if no map holds it any more its links are free)
